@@ -180,3 +180,28 @@ func returnsOf(fn *ssa.Function) []*ssa.Return {
 	}
 	return out
 }
+
+// retValue resolves result i of a return through the defer spill (`*t0 = v; rundefers; t7 = *t0; return t7`).
+func retValue(ret *ssa.Return, i int) ssa.Value {
+	v := ret.Results[i]
+	u, ok := v.(*ssa.UnOp)
+	if !ok || u.Op != token.MUL {
+		return v
+	}
+	a, ok := u.X.(*ssa.Alloc)
+	if !ok {
+		return v
+	}
+	instrs := ret.Block().Instrs
+	for k := len(instrs) - 1; k >= 0; k-- {
+		if st, ok := instrs[k].(*ssa.Store); ok && st.Addr == ssa.Value(a) {
+			return st.Val
+		}
+	}
+	return v
+}
+
+// isRecoverBlock reports the synthetic recover block of a function with defers.
+func isRecoverBlock(b *ssa.BasicBlock) bool {
+	return b.Parent().Recover == b
+}
